@@ -309,8 +309,52 @@ PROPS = {
         assumptions=["the other operand is None or an instance of the same class (the isinstance test of a foreign class is "
                      "the first statement of each __eq__ and returns False; exercised by the bounded run)"],
     ),
-    "C16": dict(level="exploration", functions=[], lemmas=[], tierb=True),
-    "C17": dict(level="exploration", functions=[], lemmas=[], tierb=True),
+    "C16": dict(
+        level="exploration",
+        # the builders of the disjunctive graph that are within reach are proved and reported; the agent-task builders, the
+        # solved graph's acyclicity / longest path and the disjunctive edges of flexible instances are bounded: claimed as bounded
+        functions=["JobShopGraph.__init__", "JobShopGraph.add_operation_nodes", "JobShopGraph.add_node", "JobShopGraph.add_edge",
+                   "JobShopGraph.nodes", "JobShopGraph.nodes_by_type", "JobShopGraph.nodes_by_job", "JobShopGraph.nodes_by_machine",
+                   "Node.__init__", "Node.node_id", "Node.node_id.setter", "Node.operation", "Node.machine_id", "Node.job_id",
+                   "add_conjunctive_edges", "add_source_sink_nodes", "add_source_sink_edges"],
+        lemmas=[],
+        tierb=True,
+        trusted=["networkx through the contracts of contracts/graphs.py: a DiGraph is a node set and an edge map over an injective "
+                 "pairing of node ids (0 = no edge, else 1 + type code); add_node, add_edge (overwrites the type of an existing "
+                 "edge), remove_node (with every incident edge), remove_nodes_from, isolates, `in` mean what their names say",
+                 "collections.defaultdict(list) keyed by NodeType = a total map type -> list, all lists empty at creation; "
+                 "itertools.combinations(xs, 2) = each index pair i < j exactly once",
+                 "allocation layout of the graph's lists as left by JobShopGraph.__init__ (TablesOK: the rows of the type / "
+                 "machine / job tables lie between the tables; proved for __init__, preserved by every verified mutator)"],
+        assumptions=[A_VALID, "operations numbered by JobShopInstance (operation_id = number of earlier operations); the instance "
+                     "is older than the graph",
+                     "proved (reported, not enough to claim the property): JobShopGraph(instance) has exactly one node per "
+                     "operation, node k carries the operation whose operation_id is k (node id = operation id), listed at its "
+                     "position in its job's row and in the OPERATION row; nothing removed, no edges; add_node gives the next id "
+                     "and keeps GraphOK; add_edge sets exactly the edge (u, v) to the given type, raises ValidationError iff an end "
+                     "is not in the graph; add_conjunctive_edges adds exactly the edges between nodes of successive operations of a "
+                     "job, typed conjunctive; add_source_sink_nodes appends source then sink (ids N, N+1); add_source_sink_edges "
+                     "adds exactly source -> first and last -> sink of every job, typed conjunctive; nothing else changes",
+                     "bounded only: disjunctive edges, the agent-task builders (machine / job / global nodes and their edges), "
+                     "the solved disjunctive graph (acyclic, longest path vs makespan), default-argument / shared-node effects "
+                     "across graphs"],
+    ),
+    "C17": dict(
+        level="exploration",
+        functions=["JobShopGraph.remove_node", "remove_completed_operations", "JobShopGraph.add_node", "JobShopGraph.__init__"],
+        lemmas=[],
+        tierb=True,
+        trusted=["networkx (see C16)", T_OBSERVERS],
+        assumptions=[A_VALID,
+                     "proved (reported, not enough to claim the property): JobShopGraph.remove_node keeps GraphOK -- the flags "
+                     "removed_nodes mirror the networkx node set, no remaining edge touches a removed node --, marks the node "
+                     "(and the nodes that became isolated) removed, and never un-removes a node; remove_completed_operations "
+                     "removes the node of every operation it is given (node id = operation id) and keeps removals permanent",
+                     "bounded only: that no unscheduled operation's node and no machine / job node with unscheduled operations "
+                     "is ever removed (needs the structure of the graph built -- isolated-node sweeping -- and the numpy-based "
+                     "IsCompletedObserver), that everything is removed at completion, ResidualGraphUpdater.update / reset, "
+                     "episodes after reset"],
+    ),
     "C18": dict(level="exploration", functions=[], lemmas=[], tierb=True),
     "C19": dict(
         level="proof",
